@@ -108,7 +108,7 @@ Lemma trichotomy_refuted :
   lt_v (v_num w_tenth53) (v_num w_tenth512) = Ok v_false /\
   gt_v (v_num w_tenth53) (v_num w_tenth512) = Ok v_false /\
   equals_v (v_num w_tenth53) (v_num w_tenth512) = Ok v_false.
-Proof. repeat split; vm_compute; reflexivity. Qed.
+Proof. split; [|split]; vm_compute; reflexivity. Qed.
 
 (* trichotomy holds for whole numbers of any size and precision: Equals is Cmp = Eq there *)
 Lemma bf_int_exact_is_int x i : bf_int x = (Some i, Exact) -> True.
